@@ -15,7 +15,7 @@ MUT = 24   # max single-field mutants per valid proof in the quick tier (0 = all
 # no longer shows the repaired behaviour is then reported as VIOLATION (signature proof-repair-regressed)
 # in addition to the re-appearing findings.  Flags: strict (rangeproof-strict-nodes), dup
 # (multistore-dupnames), succ (absence-proof-successor-key); write all three, 0 or 1 each.
-EXPECT = ""
+EXPECT = "strict=1 dup=1 succ=1"
 
 
 def run(ctx):
